@@ -44,6 +44,9 @@ def shards(tier, seed):
         out.append(("seq_%d" % i, dict(kind="seq", part=i, parts=4 if q else 16, maxlen=3 if q else 4, ncurves=1 if q else 3)))
     for nm in ("SECP112r2", "NIST192p") if q else ("SECP112r2", "NIST192p", "NIST256p", "SECP160r1", "BRAINPOOLP160r1", "NIST521p"):
         out.append(("keys_%s" % nm, dict(kind="keys", cname=nm, walks=3 if q else 20, steps=40)))
+    out.append(("child_walk_toy", dict(kind="walk", family="toy", walks=10 if q else 100, steps=120, _pyopt="opt")))
+    out.append(("child_keys_SECP112r2", dict(kind="keys", cname="SECP112r2", walks=2 if q else 10, steps=30, _pyopt="opt+hashseed")))
+    out.append(("child_seq", dict(kind="seq", part=0, parts=8 if q else 16, maxlen=3, ncurves=1, _pyopt="opt")))
     out.append(("cross_curve", dict(kind="cross", rounds=40 if q else 600)))
     out.append(("twin_keys", dict(kind="twin", rounds=30 if q else 600, steps=14)))
     return out
